@@ -110,13 +110,154 @@ def run_matrices(ctx):
             ctx.disagree(st, sig, impl, model, 'matrices differ although the quadratic-form oracle holds on sampled c')
 
 
+def _real_pen(name, n):
+    from pygam import penalties
+    if name in (None, 'none'):
+        return _dense(penalties.none(n, None))
+    return _dense(penalties.PENALTIES[name](n, None))
+
+
+def oracle_term_penalty(term):
+    """documented penalty of one term recomputed with NumPy from pygam.penalties.* (the primitives are checked by run_matrices)"""
+    if term.isintercept:
+        return np.zeros((1, 1))
+    if term.istensor:
+        dims = [int(t.n_coefs) for t in term._terms]
+        n = int(np.prod(dims))
+        P = np.zeros((n, n))
+        for i, t in enumerate(term._terms):
+            mats = [oracle_term_penalty(t) if j == i else np.eye(d) for j, d in enumerate(dims)]
+            K = mats[0]
+            for M in mats[1:]:
+                K = np.kron(K, M)
+            P += K
+        return P
+    n = int(term.n_coefs)
+    P = np.zeros((n, n))
+    for pen, lam in zip(term.penalties, np.atleast_1d(term.lam)):
+        if pen == 'auto':
+            if term._name == 'spline_term' and term.dtype == 'numerical':
+                pen = 'periodic' if term.basis == 'cp' else 'derivative'
+            else:
+                pen = 'l2'
+        P = P + lam * _real_pen(pen, n)
+    return P
+
+
+def fibre_quadform(term, c):
+    """c' P c of a tensor term as the sum over marginals of the lam-weighted marginal roughness of every fibre of c"""
+    dims = [int(t.n_coefs) for t in term._terms]
+    C = np.asarray(c, dtype=float).reshape(dims)
+    tot = 0.0
+    for i, t in enumerate(term._terms):
+        Pi = oracle_term_penalty(t)
+        Cm = np.moveaxis(C, i, 0).reshape(dims[i], -1)
+        tot += float(np.einsum('af,ab,bf->', Cm, Pi, Cm))
+    return tot
+
+
+def run_terms(ctx):
+    pygam = common.import_pygam()
+    import scipy.linalg
+    st = 'pen.terms'
+    st_t = 'pen.term'
+    st_or = 'pen.oracle'
+    ctx.stream(st, 'TermList.build_penalties() vs model penaltyAll (exact rationals; programs without the periodic penalty)')
+    ctx.stream(st_t, 'term.build_penalties() vs model Term.penalty')
+    ctx.stream(st_or, 'term penalty = sum lam_j * penalty_j; tensor = Kronecker lifts = fibre roughness; list = block diagonal with zero intercept block (NumPy, real code only)')
+    nprog = 40 if ctx.tier == 'quick' else 300
+    progs = []
+    k = 0
+    while len(progs) < nprog and k < 4 * nprog:
+        rng = ctx.subrng('tprog', k)
+        k += 1
+        try:
+            pr = termgen.gen_program(rng, pygam, allow_constraints=False, allow_periodic_penalty=(k % 4 == 0), n_query=1)
+        except ValueError as e:
+            ctx.count('generator-rejected', str(e)[:40])
+            continue
+        progs.append(pr)
+    ops, meta = [], []
+    for pr in progs:
+        toks = ' '.join(pr.tokens)
+        per = any(termgen.uses_periodic_penalty(t) for t in pr.terms)
+        if not per:
+            ops.append('C04 tpen ' + toks)
+            for ti in range(len(pr.terms)):
+                ops.append('C04 termpen %d %s' % (ti, toks))
+        meta.append((pr, per))
+    outs = ctx.driver.run(ops)
+    pos = 0
+    for pr, per in meta:
+        tl = pr.terms
+        sig = dict(tokens=' '.join(pr.tokens))
+        ctx.count('uses periodic penalty', per)
+        for kind in pr.desc['kinds']:
+            ctx.count('term kind', kind)
+        nontriv = any((not t.isintercept) and (t.istensor or len(np.atleast_1d(t.lam)) > 1) for t in tl)
+        # ---- oracle on the real code
+        try:
+            P = _dense(tl.build_penalties())
+            blocks = [_dense(t.build_penalties()) for t in tl]
+        except Exception as e:  # noqa
+            ctx.case(st_or, sig, nontrivial=nontriv)
+            ctx.fail(st_or, dict(kind='exception', exc=type(e).__name__), dict(tokens=sig['tokens']), observed='%s: %s' % (type(e).__name__, str(e)[:200]),
+                     expected='a penalty matrix', oracle='build_penalties must not raise')
+            if not per:
+                pos += 1 + len(tl)
+            continue
+        ref_blocks = [oracle_term_penalty(t) for t in tl]
+        ref = scipy.linalg.block_diag(*ref_blocks)
+        ctx.case(st_or, sig, nontrivial=nontriv)
+        bad = None
+        if P.shape != ref.shape or np.abs(P - ref).max() > 1e-9 * max(1.0, np.abs(ref).max()):
+            bad = 'list penalty != block_diag(sum_j lam_j * penalty_j, Kronecker lifts)'
+        else:
+            rng = ctx.subrng('coef', sig['tokens'])
+            for t, B in zip(tl, blocks):
+                if t.istensor:
+                    c = np.array([rng.randint(-4, 4) for _ in range(B.shape[0])], dtype=float)
+                    q1 = float(c @ B @ c)
+                    q2 = fibre_quadform(t, c)
+                    if abs(q1 - q2) > 1e-8 * max(1.0, abs(q2)):
+                        bad = 'tensor quadratic form %.12g != sum of fibre roughness %.12g' % (q1, q2)
+            if not np.allclose(P, P.T):
+                bad = 'not symmetric'
+        if bad:
+            ctx.fail(st_or, dict(kind='term-penalty', why=bad.split(' ')[0]), dict(tokens=sig['tokens']), observed=bad,
+                     expected='documented assembly of term penalties', oracle='NumPy recomputation from pygam.penalties primitives')
+        if per:
+            continue
+        # ---- model comparison
+        out = outs[pos]; pos += 1
+        ctx.case(st, sig, nontrivial=nontriv, sample=dict(tokens=sig['tokens']))
+        if out == 'bad-op':
+            ctx.disagree(st, sig, 'n/a', 'bad-op', 'model rejected the encoding')
+        else:
+            M = np.array([[float(v) for v in row] for row in common.parse_mat(out)]).reshape(P.shape[0], -1) if P.size else np.zeros((0, 0))
+            if M.shape != P.shape or np.abs(M - P).max() > 1e-9 * max(1.0, np.abs(M).max()):
+                if not bad:
+                    ctx.disagree(st, sig, dict(shape=list(P.shape)), dict(shape=list(M.shape), maxdiff=float(np.abs(M - P).max()) if M.shape == P.shape else None),
+                                 'model penalty differs from build_penalties although the NumPy oracle agrees with the implementation')
+        for ti, t in enumerate(tl):
+            out = outs[pos]; pos += 1
+            ctx.case(st_t, dict(tokens=sig['tokens'], term=ti), nontrivial=not t.isintercept)
+            B = blocks[ti]
+            if out == 'bad-op':
+                ctx.disagree(st_t, sig, 'n/a', 'bad-op', 'model rejected term %d' % ti)
+                continue
+            M = np.array([[float(v) for v in row] for row in common.parse_mat(out)]).reshape(B.shape[0], -1)
+            if M.shape != B.shape or np.abs(M - B).max() > 1e-9 * max(1.0, np.abs(M).max()):
+                if not bad:
+                    ctx.disagree(st_t, dict(tokens=sig['tokens'], term=ti), B.tolist(), M.tolist(), 'term penalty differs')
+
+
 def run(ctx):
     ctx.extra['rule'] = ('full product of penalty kind x n x derivative order (matrix level); random term programs '
                          '(term level); a case is non-trivial when n > 1 resp. the term list has a penalised term; '
                          'distinct = distinct (stream, configuration) signatures')
     run_matrices(ctx)
-    if hasattr(termgen, 'run_c04_terms'):
-        termgen.run_c04_terms(ctx)
+    run_terms(ctx)
 
 
 def replay(ctx, rp):
